@@ -406,7 +406,7 @@ func init() {
 		ID: "C20", Level: "model_checking", Run: func(c *core.Ctx) { c20Run(c); c20LargeRun(c) },
 		Shards: func(tier string) int { return 16 },
 		Rule: func(tier string) string {
-			return "BFS to fixpoint over the reachable states (live set, scan offset) of the real IDGenerator for every configured range; every operation (Allocate, Allocate_inRange(a,b) for all a,b in [max(0,min-2), max+2] (out-of-bounds and reversed pairs included), FreeID(x) for all x in [min-1,max+1]) is applied in every state by replaying the shortest path on a fresh allocator; each transition is checked against a live-set model and followed by the closure check (repeated Allocate returns exactly the free ids). States are distinct by the values of all fields of the allocator. Environment: the library's reads of the wall clock and of the process-local zone go through a seam (source overlay); every path of up to two operations on the ranges of 2..4 identifiers is repeated under 14 clock answers (two dates x the sub-second phases 0, 1 ns, 499 999 999, 500 000 000, 999 499 999, 999 500 000, 999 999 999 ns)."
+			return "BFS to fixpoint over the reachable states (live set, scan offset) of the real IDGenerator for every configured range; every operation (Allocate, Allocate_inRange(a,b) for all a,b in [max(0,min-2), max+2] (out-of-bounds and reversed pairs included), FreeID(x) for all x in [min-1,max+1]) is applied in every state by replaying the shortest path on a fresh allocator; each transition is checked against a live-set model and followed by the closure check (repeated Allocate returns exactly the free ids). States are distinct by the values of all fields of the allocator. Environment: the library's reads of the wall clock and of the process-local zone go through a seam (source overlay); every path of up to two operations on the ranges of 2..4 identifiers is repeated under 14 clock answers (two dates x the sub-second phases 0, 1 ns, 499 999 999, 500 000 000, 999 499 999, 999 500 000, 999 999 999 ns). Wide ranges ([1,65535], [0,2047], [1,1500]) cannot be searched to a fixpoint: every history of up to 4 (thorough 5) operations over Allocate, Allocate_inRange(a, max) for a around the powers of two 2^8..2^12 and at both ends, and FreeID of the first..fourth id returned, with the live-set oracle and six closing allocations."
 		},
 		Bounds: func(tier string) map[string]any {
 			var l []string
